@@ -1,8 +1,8 @@
 package core
 
 import (
-	"go/token"
 	"fmt"
+	"go/token"
 	"strings"
 
 	"golang.org/x/tools/go/ssa"
